@@ -1,11 +1,20 @@
 """Regenerate every Gen/*.v from /repo's working tree (used by setup.sh). A translation failure
 is not fatal here: the affected check reports it."""
+import glob
+import importlib
 import os
+import re
 import sys
-sys.path.insert(0, os.path.dirname(os.path.abspath(__file__)))
-from common import *  # noqa
-import c13
-
-fails = c13.translate_classification(None)
-for f in fails:
-    print('[regen] translation failure:', f)
+HERE = os.path.dirname(os.path.abspath(__file__))
+sys.path.insert(0, HERE)
+sys.path.insert(0, os.path.join(os.path.dirname(HERE), 'tools'))
+for p in sorted(glob.glob(os.path.join(HERE, 'c[0-9][0-9].py'))):
+    name = os.path.basename(p)[:-3]
+    mod = importlib.import_module(name)
+    if hasattr(mod, 'regen_gen'):
+        try:
+            fails = mod.regen_gen()
+        except Exception as e:  # noqa
+            fails = [repr(e)]
+        for f in fails or []:
+            print(f'[regen] {name}: translation failure: {f}')
